@@ -457,7 +457,7 @@ func TestC13NilValues(t *testing.T) {
 			return &badgerstore.IndexQuery{Index: qs.Index("ia"), KeyPrefix: []byte(q.Get("p")), Limit: -1}, nil
 		})
 		qs.AddIndex(badgerstore.Index{Name: "ia", Key: key})
-		defer qs.Flush() // before the database is closed: index updates run on a goroutine of their own
+		defer qs.Flush()             // before the database is closed: index updates run on a goroutine of their own
 		model := map[string]string{} // id -> key ("" = not indexed)
 		exists := map[string]bool{}
 		n := rapid.IntRange(1, 25).Draw(rt, "nops")
